@@ -508,8 +508,14 @@ def run_witness(u, scratch, failed_obligations, tier):
     for m in re.finditer(r"^VERIF-DEVIATION id=(\S+)((?: @C\d+)*) (.*)$", out, re.M):
         owners = [t.strip() for t in m.group(2).split("@") if t.strip()]
         deviations.setdefault(m.group(1), (m.group(3).strip(), owners))
+    # exploration-level evidence (units with "evidence_level": "exploration"): the stand-in COUNTS its distinct non-trivial cases and
+    # shows a few: `VERIF-EXPLORED test=<name> distinct_nontrivial=<n> rule=<text>`, `VERIF-SAMPLE <case>`
+    explored = [{"test": m.group(1), "distinct_nontrivial": int(m.group(2)), "rule": m.group(3).strip()}
+                for m in re.finditer(r"^VERIF-EXPLORED test=(\S+) distinct_nontrivial=(\d+) rule=(.*)$", out, re.M)]
+    samples = [m.group(1).strip() for m in re.finditer(r"^VERIF-SAMPLE (.*)$", out, re.M)][:24]
     shown = r.stdout[-9000:] + "\n--- stderr (tail) ---\n" + r.stderr[-1200:]
-    return {"_results": results, "_cmd": " ".join(cmd), "_output": shown, "_map": w.get("map", {}), "_bounded": bounded, "_deviations": deviations}
+    return {"_results": results, "_cmd": " ".join(cmd), "_output": shown, "_map": w.get("map", {}), "_bounded": bounded, "_deviations": deviations,
+            "_explored": explored, "_samples": samples}
 
 
 def main():
@@ -712,6 +718,16 @@ def do_check(prop, args, scratch, seed, t0):
         "wall_s": round(time.time() - t0, 2),
         "violations": len(violations),
     }
+    lvl = sorted({u["evidence_level"] for u in units if u.get("evidence_level") and not u.get("_foreign")})
+    if lvl:
+        # a claim that rests mostly on bounded stand-ins says so: level = exploration, with the counts the stand-ins measured on this run
+        explored = [dict(e, unit=u) for u, w in witness.items() for e in w.get("_explored", [])]
+        ev["level"] = lvl[0]
+        ev["coverage"]["evaluations"] = sum(b["evaluations"] for b in ev["coverage"]["bounded_checks"])
+        ev["coverage"]["distinct_nontrivial"] = sum(e["distinct_nontrivial"] for e in explored)
+        ev["coverage"]["rule"] = " | ".join(f"{e['test']}: {e['rule']}" for e in explored)
+        ev["coverage"]["samples"] = [x for u, w in witness.items() for x in w.get("_samples", [])] + ev["coverage"]["samples"]
+        ev["coverage"]["explored"] = explored
     json.dump(ev, open(os.path.join(EVIDENCE, prop + ".json"), "w"), indent=1)
 
     for l in lines:
